@@ -485,6 +485,25 @@ class CallGraph:
             if vis:
                 self.models['docutils-walk'] = self.models.get('docutils-walk', 0) + 1
                 return Site(call, f, vis, 'model:walk')
+        if isinstance(fn, ast.Attribute) and fn.attr in ('visit', 'generic_visit') and how in ('ext', 'ext?', 'unresolved', 'name'):
+            # ast.NodeVisitor / NodeTransformer dispatch: visit_<Class> methods of the receiver's class family
+            vis2: List[Func] = []
+            for a in r.type_of(fn.value, f):
+                if a[0] in ('inst', 'super') and a[1] in r.classes:
+                    c0 = r.classes[a[1]]
+                    if any(e.split('.')[-1] in ('NodeVisitor', 'NodeTransformer') for e in r.ext_bases(c0)):
+                        for k in self._family(c0):
+                            for nm, m in k.methods.items():
+                                if nm.startswith('visit_') and m not in vis2:
+                                    vis2.append(m)
+                            for nm in k.aliases:
+                                if nm.startswith('visit_'):
+                                    m2 = r.find_method(k, nm)
+                                    if m2 is not None and m2 not in vis2:
+                                        vis2.append(m2)
+            if vis2:
+                self.models['ast-visitor'] = self.models.get('ast-visitor', 0) + 1
+                return Site(call, f, vis2, 'model:ast-visit')
         if isinstance(fn, ast.Name) and fn.id in ('str', 'repr', 'next', 'iter', 'len', 'bool', 'sorted', 'list', 'tuple') and call.args:
             names = {'str': ['__str__', '__repr__'], 'repr': ['__repr__'], 'next': ['__next__'],
                      'iter': ['__iter__'], 'len': ['__len__'], 'bool': ['__bool__', '__len__'],
